@@ -453,8 +453,9 @@ class DriverLubaRs232(DriverSerialBase):
                     f"LUBA RX DALI queue not empty! {qlen} items in queue!"
                 )
                 try:
-                    item = self._queue_rx_raw_dali.get_nowait()
-                    _LOG.critical(f"LUBA RX DALI queue discarding: {item}")
+                    while True:
+                        item = self._queue_rx_raw_dali.get_nowait()
+                        _LOG.critical(f"LUBA RX DALI queue discarding: {item}")
                 except asyncio.QueueEmpty:
                     pass
 
@@ -1081,7 +1082,7 @@ class DriverLubaRs232(DriverSerialBase):
             self._protocol.reset_dali_response()
             await self._protocol.send_dali_command(msg)
             if msg.is_query:
-                response = command.Response(None)
+                response = msg.response(None)
                 while True:
                     try:
                         raw_rsp = await asyncio.wait_for(
@@ -1288,8 +1289,9 @@ class DriverSCIRS232(DriverSerialBase):
                     f"SCI RS232 RX DALI queue not empty! {qlen} items in queue!"
                 )
                 try:
-                    item = self._queue_rx_raw_dali.get_nowait()
-                    _LOG.critical(f"SCI RS232 RX DALI queue discarding: {item}")
+                    while True:
+                        item = self._queue_rx_raw_dali.get_nowait()
+                        _LOG.critical(f"SCI RS232 RX DALI queue discarding: {item}")
                 except asyncio.QueueEmpty:
                     pass
 
@@ -1300,8 +1302,9 @@ class DriverSCIRS232(DriverSerialBase):
                     f"SCI RS232 RX info DALI queue not empty! {qlen} items in queue!"
                 )
                 try:
-                    item = self._queue_rx_raw_dali.get_nowait()
-                    _LOG.critical(f"SCI RS232 RX info DALI queue discarding: {item}")
+                    while True:
+                        item = self._queue_rx_info.get_nowait()
+                        _LOG.critical(f"SCI RS232 RX info DALI queue discarding: {item}")
                 except asyncio.QueueEmpty:
                     pass
 
@@ -1672,7 +1675,7 @@ class DriverSCIRS232(DriverSerialBase):
             self._protocol.reset_dali_response()
             await self._protocol.send_dali_command(msg)
             if msg.is_query:
-                response = command.Response(None)
+                response = msg.response(None)
                 while True:
                     try:
                         raw_rsp = await asyncio.wait_for(
